@@ -302,7 +302,30 @@ def handle (req : Json) : Except String Json := do
       let sp := shouldPred cfg L.hasScore
       Json.arr #[ofList Json.str (recordKeys cfg (mkFlags first) sp bs.isSome false),
                  ofList Json.str (recordKeys cfg (mkFlags first) sp bs.isSome true)]
-  pure (obj [("model", outJson model), ("hyp", Json.bool hyp), ("firstBad", bad), ("recordKeys", rkeys), ("spec", ofOpt id spec), ("specB", ofOpt id specB),
+  -- phase 5: every call the learner OBJECT receives (SafeLearner's call discipline), and the loop's own skeleton
+  let methStr : Meth → String := fun m => match m with | .predict => "predict" | .score => "score" | .learn => "learn"
+  let rawJson : RawCall → Json := fun r => match r with
+    | .scoreProbe => Json.arr #[Json.str "probe"]
+    | .batch m rows ok => Json.arr #[Json.str "batch", Json.str (methStr m), ofList ofNat rows, Json.bool ok]
+    | .row m i => Json.arr #[Json.str "row", Json.str (methStr m), ofNat i]
+    | .orient i => Json.arr #[Json.str "orient", ofNat i]
+  let raw : Json ← match lj.getObjVal? "raw" with
+    | .ok rj => do
+      let aware ← bool (← field rj "aware")
+      let width ← opt nat (fieldD rj "width" Json.null)
+      let missing := match env with
+        | [] => false
+        | first :: _ => !(missingKeys cfg L.hasScore first).isEmpty
+      let cs := match bs with
+        | some n => chunks n (List.range env.length)
+        | none => chunks 1 (List.range env.length)
+      pure (obj [("calls", ofList rawJson (callsSeen cfg L.hasScore aware width bs env.length missing)),
+                 ("skeleton", ofList (fun (mi : Meth × Nat) => Json.arr #[Json.str (methStr mi.1), ofNat mi.2]) (skeleton (phasesOf cfg L.hasScore) cs)),
+                 ("modelMeths", match model with
+                    | .ok r => ofList (fun (cl : Call V) => Json.str (methStr cl.meth)) r.2.1
+                    | _ => Json.null)])
+    | .error _ => pure Json.null
+  pure (obj [("model", outJson model), ("hyp", Json.bool hyp), ("raw", raw), ("firstBad", bad), ("recordKeys", rkeys), ("spec", ofOpt id spec), ("specB", ofOpt id specB),
              ("modelI", modelI), ("modelIB", modelIB), ("modelP", modelP),
              ("history", hist),
              ("unbatched", outJson modelU),
